@@ -474,6 +474,37 @@ Section Plans.
   Proof. intros h. rewrite local_part_In, distance_local. tauto. Qed.
 End Plans.
 
+(* ------------------------------------------------------------------ a plan drained while events are delivered *)
+Lemma bget_key_In : forall b d, bget b d <> [] -> In d (map fst b).
+Proof.
+  intros b d H. destruct (in_dec Z.eq_dec d (map fst b)) as [Hi|Hn]; [exact Hi|].
+  exfalso. apply H. apply bget_nokey. exact Hn.
+Qed.
+
+Lemma plan3_sound : forall s0 s1 s2 L0 L2 h, dca_inv s0 L0 -> dca_inv s2 L2 ->
+  In h (dca_plan3 s0 s1 s2) ->
+  (L0 h = true /\ dca_distance s0 h = LOCAL) \/ L2 h = true.
+Proof.
+  intros s0 s1 s2 L0 L2 h H0 H2 Hin. unfold dca_plan3 in Hin. apply in_app_or in Hin. destruct Hin as [Hin|Hin].
+  - left. apply (local_part_distance s0 L0 H0). exact Hin.
+  - right. apply in_flat_map in Hin. destruct Hin as [dc [_ Hh]].
+    destruct (dc =? d_local s1); [destruct Hh|]. apply In_take_used in Hh.
+    destruct H2 as [_ [_ HM]]. apply HM in Hh. apply Hh.
+Qed.
+
+Lemma plan3_complete : forall s0 s1 s2 L0 L2 h, dca_inv s0 L0 -> dca_inv s2 L2 ->
+  d_local s1 = d_local s2 ->
+  ((L0 h = true /\ dca_distance s0 h = LOCAL) \/
+   (dca_distance s2 h = REMOTE /\ bget (d_live s1) (dca_dc s2 h) <> [])) ->
+  In h (dca_plan3 s0 s1 s2).
+Proof.
+  intros s0 s1 s2 L0 L2 h H0 H2 Hl [Hc|[Hr Hk]]; unfold dca_plan3; apply in_or_app.
+  - left. apply (local_part_distance s0 L0 H0). exact Hc.
+  - right. apply (distance_remote s2) in Hr. destruct Hr as [Hne Hin].
+    apply in_flat_map. exists (dca_dc s2 h). split; [apply bget_key_In; exact Hk|].
+    rewrite Hl. destruct (Z.eqb_spec (dca_dc s2 h) (d_local s2)); [tauto|exact Hin].
+Qed.
+
 (* ================================================================== the three base policies behind one interface *)
 Definition b_inv (b : base) (s : bstate) (L : Z -> bool) : Prop :=
   match s with SRR r => rr_inv (b_wl b) r L | SDCA d => dca_inv d L end.
